@@ -1,6 +1,7 @@
 package core
 
 import (
+	"go/ast"
 	"fmt"
 	"go/constant"
 	"go/token"
@@ -68,12 +69,59 @@ func ParamPerm(fn *ssa.Function) []int {
 		return nil
 	}
 	perm := make([]int, len(base))
+	byName := true
 	for i, b := range base {
 		j, ok := cur[b]
+		if !ok {
+			byName = false
+			break
+		}
+		perm[i] = j
+	}
+	if byName {
+		return perm
+	}
+	// renamed as well as reordered: when all parameter types are distinct and the
+	// same as in the baseline, the types identify the permutation
+	bt := BaselineParamTypes(FnName(fn))
+	fd, _ := fn.Syntax().(*ast.FuncDecl)
+	if len(bt) != len(base) || fd == nil {
+		return nil
+	}
+	var ct []string
+	for _, f := range fd.Type.Params.List {
+		ts := strings.ReplaceAll(types.ExprString(f.Type), " ", "")
+		n := len(f.Names)
+		if n == 0 {
+			n = 1
+		}
+		for k := 0; k < n; k++ {
+			ct = append(ct, ts)
+		}
+	}
+	if len(ct) != len(bt) {
+		return nil
+	}
+	idx := map[string]int{}
+	for i, t := range ct {
+		if _, dup := idx[t]; dup {
+			return nil
+		}
+		idx[t] = i
+	}
+	identity := true
+	for i, t := range bt {
+		j, ok := idx[t]
 		if !ok {
 			return nil
 		}
 		perm[i] = j
+		if i != j {
+			identity = false
+		}
+	}
+	if identity {
+		return nil
 	}
 	return perm
 }
@@ -107,32 +155,15 @@ func paramName(p *ssa.Parameter) string {
 		off = 1
 	}
 	// Parameters are named by position in the baseline signature: if the current
-	// parameter names are a permutation of the baseline names (an unexported
-	// function whose parameters were reordered), positions are mapped by name.
-	if fn.Parent() == nil {
-		if base := BaselineParams(FnName(fn)); len(base) == len(fn.Params)-off && len(base) > 1 {
-			perm, same := true, true
-			idx := -1
-			count := map[string]int{}
-			for _, b := range base {
-				count[b]++
-			}
-			for i, q := range fn.Params[off:] {
-				if count[q.Name()] != 1 || q.Name() == "_" {
-					perm = false
-				}
-				if q.Name() != base[i] {
-					same = false
-				}
-			}
-			if perm && !same {
-				for i, b := range base {
-					if b == p.Name() {
-						idx = i
+	// parameters are a permutation of the baseline ones (an unexported function
+	// whose parameters were reordered), positions are mapped back (see ParamPerm).
+	if perm := ParamPerm(fn); perm != nil {
+		for i, q := range fn.Params[off:] {
+			if q == p {
+				for bi, ci := range perm {
+					if ci == i {
+						return "$" + strconv.Itoa(bi)
 					}
-				}
-				if idx >= 0 {
-					return "$" + strconv.Itoa(idx)
 				}
 			}
 		}
@@ -969,11 +1000,18 @@ func Implies(a, b Atom) bool {
 	case a.Kind == LE && b.Kind == LE:
 		return sameVec(a.L, b.L) && a.L.K >= b.L.K
 	case a.Kind == EQ && b.Kind == LE:
-		if sameVec(a.L, b.L) && a.L.K == b.L.K {
+		// Σ + ka == 0, want Σ + kb <= 0, i.e. kb <= ka
+		if sameVec(a.L, b.L) && b.L.K <= a.L.K {
 			return true
 		}
 		n := a.L.scale(-1)
-		return sameVec(n, b.L) && n.K == b.L.K
+		return sameVec(n, b.L) && b.L.K <= n.K
+	case a.Kind == EQ && b.Kind == NE:
+		if sameVec(a.L, b.L) {
+			return a.L.K != b.L.K
+		}
+		n := a.L.scale(-1)
+		return sameVec(n, b.L) && n.K != b.L.K
 	case a.Kind == LE && b.Kind == NE:
 		// Σ <= -ka ; want Σ' != -kb
 		if sameVec(a.L, b.L) {
@@ -995,3 +1033,20 @@ func (l Lin) IsConst() bool    { return l.isConst() }
 
 // LEZero is the atom l <= 0.
 func LEZero(l Lin) Atom { return Atom{Kind: LE, L: l} }
+
+// SameTerms reports whether two atoms constrain the same linear combination (up to sign and constant).
+func SameTerms(a, b Atom) bool {
+	if len(a.L.Coef) == 0 || len(a.L.Coef) != len(b.L.Coef) {
+		return false
+	}
+	pos, neg := true, true
+	for t, c := range a.L.Coef {
+		if b.L.Coef[t] != c {
+			pos = false
+		}
+		if b.L.Coef[t] != -c {
+			neg = false
+		}
+	}
+	return pos || neg
+}
